@@ -80,6 +80,7 @@ int main(int argc, char **argv) {
     auto elapsed = [&]() { return std::chrono::duration<double>(std::chrono::steady_clock::now() - t0).count(); };
     const std::string ctx_base = std::string("kernel=") + KERNEL_NAME + " prop=" + A.prop + " seed=" + A.seed + " cfg=" + A.cfg.str() + " history=";
     PropChecks pc(A.prop);
+    pc.cur_seed = A.seed; pc.cur_cfg = A.cfg;
     Stats st;
 
     // rebuild a state: fresh objects, seed, history replayed (states are histories; mesh copy is itself under test)
@@ -118,6 +119,7 @@ int main(int argc, char **argv) {
             pc.transition(s, h[i], vs, st, A.seed, A.cfg, Hist(h.begin(), h.begin() + i));
             if (!vs.empty()) break;
             g_phase = "state-check";
+            pc.cur_hist = Hist(h.begin(), h.begin() + i + 1);
             pc.state_checks(s, vs, st);
         }
         for (auto &v : vs) printf("REPLAY-VIOLATION rule=%s detail=%s\n", v.rule.c_str(), v.detail.c_str());
@@ -179,6 +181,7 @@ int main(int argc, char **argv) {
                     if (seen.insert(k).second) {
                         ++states;
                         g_phase = "state-check";
+                        pc.cur_hist = h2;
                         pc.state_checks(s, vs, st);
                         if (level + 1 < total_depth) next.push_back(h2);
                         if (samples.size() < 3 && (states % 97 == 5 || level + 1 == total_depth)) samples.push_back(hist_str(h2));
